@@ -317,6 +317,68 @@ def explore_detector_gate(ctx):
     shutil.rmtree(base, ignore_errors=True)
 
 
+def explore_scan_gate(ctx):
+    """scan requests whose path leaves the node root (through a symbolic link, or lexically) are refused: no scan task is queued and no
+    directory outside the root is walked"""
+    import shutil
+
+    from alpenhorn.daemon import update as U
+    from vf.harness import world as w
+
+    base = ctx.tmp() / "scangate"
+    shutil.rmtree(base, ignore_errors=True)
+    w.fresh_db()
+    g = w.mkgroup("g")
+    node = w.mknode(base, "n", g, stype="F")
+    root = pathlib.Path(node.root)
+    out = base / "elsewhere"
+    (out / "acqX").mkdir(parents=True)
+    (out / "acqX" / "secret.dat").write_bytes(b"not ours")
+    (root / "acqA" / "sub").mkdir(parents=True)
+    (root / "acqA" / "good.dat").write_bytes(b"ours")
+    os.symlink(out, root / "link")
+    os.symlink(root / "acqA", root / "alias")
+    reqs = {"acqA": True, "acqA/sub": True, ".": True, "alias": True, "link": False, "link/acqX": False, "acqA/../../elsewhere": False, "acqA/../link": False, "missing": False}
+    for path in reqs:
+        w.ArchiveFileImportRequest.create(node=node, path=path, recurse=True, register=True)
+    queue = w.StepQueue.make()
+    un = U.UpdateableNode(queue, w.StorageNode.get(id=node.id))
+    walked = []
+    orig_scandir = os.scandir
+
+    def scandir(p="."):
+        walked.append(os.path.realpath(os.fspath(p)))
+        return orig_scandir(p)
+
+    os.scandir = scandir
+    try:
+        un.update_import()
+        queued = []
+        while True:
+            it = queue.get(timeout=0.001)
+            if it is None:
+                break
+            queued.append(str(it[0]))
+            queue.task_done(it[1])
+        # run the scans that were queued (fresh pass: the requests that were refused are completed already)
+    finally:
+        os.scandir = orig_scandir
+    rootreal = os.path.realpath(root)
+    ctx.count("scan-gate", len(reqs))
+    ctx.distinct_add(("scan-gate",))
+    for path, ok in reqs.items():
+        got = any(f'Scan "{path}"' in q or (path == "." and 'Scan "."' in q) for q in queued)
+        norm = os.path.normpath(path)
+        got = got or any(f'Scan "{norm}"' in q for q in queued) or (path == "alias" and any('Scan "acqA"' in q for q in queued))
+        rp = {"family": "scan-gate", "request": path, "queued": queued}
+        if not ok and any(f'"{path}"' in q for q in queued):
+            ctx.fail("C06:scan-gate", f"the scan request {path!r} resolves outside the node root but a scan was queued for it: {queued}", rp)
+    outside = [p for p in walked if not (p == rootreal or p.startswith(rootreal + "/"))]
+    if outside:
+        ctx.fail("C06:scan-gate", f"directories outside the node root were walked: {outside}", {"family": "scan-gate", "walked": walked})
+    shutil.rmtree(base, ignore_errors=True)
+
+
 def explore_gates(ctx, n):
     """the same strings offered to the index through its gates: `file create`, `acq create`, import requests"""
     from vf.harness import cliworld as cw
@@ -353,6 +415,7 @@ def explore(ctx):
     explore_strings(ctx, 8 if ctx.quick() else 10, 3000 if ctx.quick() else 40000)
     explore_gates(ctx, 150 if ctx.quick() else 3000)
     explore_detector_gate(ctx)
+    explore_scan_gate(ctx)
     explore_rmdir(ctx)
     explore_histories(ctx, 25 if ctx.quick() else 1500)
 
